@@ -39,6 +39,8 @@ def lattices(tier='quick', seed=0):
         ('cubic6-generic-rot', (np.eye(3) * 6.0) @ R.T),
         ('tric-vesta', tric),
     ]
+    swap = np.array([[0, 1, 0], [1, 0, 0], [0, 0, 1]], dtype=float)  # odd permutation: left-handed cell matrix
+    out.append(('tric-vesta-left-handed', swap @ tric))
     if tier == 'thorough':
         strong = geom.from_parameters(5, 6, 7, 55, 110, 75)
         out += [
